@@ -5,6 +5,7 @@ import (
 	"context"
 	"io"
 	"runtime/pprof"
+	"strconv"
 	"strings"
 	"sync"
 
@@ -229,14 +230,111 @@ func WithLabel(ctx context.Context, value string, f func(ctx context.Context)) {
 // GoroutinesAll returns the blocks of a debug=1 goroutine profile (one per
 // distinct stack+labels) and the subset carrying the label value.
 func GoroutinesAll(value string) (all, mine []string) {
-	var buf bytes.Buffer
-	_ = pprof.Lookup("goroutine").WriteTo(&buf, 1)
 	needle := `"g5case":"` + value + `"`
-	for _, blk := range strings.Split(buf.String(), "\n\n") {
+	for _, blk := range snapshotAfterNow() {
 		all = append(all, blk)
 		if strings.Contains(blk, needle) {
 			mine = append(mine, blk)
 		}
 	}
 	return
+}
+
+// WithReqLabel runs f with a second pprof label ("g5req") on top of the case
+// label, so that the goroutines of one request can be told from another's.
+func WithReqLabel(ctx context.Context, req string, f func(ctx context.Context)) {
+	pprof.Do(ctx, pprof.Labels("g5req", req), f)
+}
+
+// GoroutineCount returns how many goroutines carrying the case label have a
+// stack (debug=1 profile block: labels line + frames, runtime frames are not
+// shown) that contains every one of the given substrings.
+func GoroutineCount(value string, contains ...string) int {
+	_, mine := GoroutinesAll(value)
+	n := 0
+blocks:
+	for _, blk := range mine {
+		for _, c := range contains {
+			if !strings.Contains(blk, c) {
+				continue blocks
+			}
+		}
+		k := 1
+		if i := strings.Index(blk, " @"); i > 0 {
+			if v, err := strconv.Atoi(strings.TrimSpace(blk[:i])); err == nil {
+				k = v
+			}
+		}
+		n += k
+	}
+	return n
+}
+
+// TopFrames returns, for every goroutine carrying the case label whose stack
+// contains all the given substrings, the topmost non-runtime frame (function name).
+func TopFrames(value string, contains ...string) []string {
+	_, mine := GoroutinesAll(value)
+	var out []string
+blocks:
+	for _, blk := range mine {
+		for _, c := range contains {
+			if !strings.Contains(blk, c) {
+				continue blocks
+			}
+		}
+		for _, ln := range strings.Split(blk, "\n") {
+			if !strings.HasPrefix(ln, "#\t") {
+				continue
+			}
+			f := strings.Fields(ln)
+			if len(f) >= 3 {
+				fn := f[2]
+				if i := strings.LastIndex(fn, "+0x"); i > 0 {
+					fn = fn[:i]
+				}
+				out = append(out, fn)
+			}
+			break
+		}
+	}
+	return out
+}
+
+// A goroutine profile stops the world and is expensive in a process that runs
+// many cases in parallel: concurrent callers share one profile. Every caller
+// gets a profile that was STARTED after its call (never a stale one).
+var snap struct {
+	mu      sync.Mutex
+	cond    *sync.Cond
+	running bool
+	gen     uint64 // number of completed profiles
+	blocks  []string
+}
+
+func snapshotAfterNow() []string {
+	snap.mu.Lock()
+	defer snap.mu.Unlock()
+	if snap.cond == nil {
+		snap.cond = sync.NewCond(&snap.mu)
+	}
+	target := snap.gen + 1
+	if snap.running {
+		target++ // the one under way started before this call
+	}
+	for snap.gen < target {
+		if snap.running {
+			snap.cond.Wait()
+			continue
+		}
+		snap.running = true
+		snap.mu.Unlock()
+		var buf bytes.Buffer
+		_ = pprof.Lookup("goroutine").WriteTo(&buf, 1)
+		blocks := strings.Split(buf.String(), "\n\n")
+		snap.mu.Lock()
+		snap.blocks, snap.running = blocks, false
+		snap.gen++
+		snap.cond.Broadcast()
+	}
+	return snap.blocks
 }
